@@ -157,8 +157,11 @@ def node_times(sp):
 
     if sp.method is None or sp.T[0] != "num" or sp.t0[0] != "num":
         return None
-    if (sp.method.get("grid") or {}).get("cls") == "DenseEdges":
+    g = sp.method.get("grid") or {}
+    if g.get("cls") == "DenseEdges":
         return None  # node times known to ~1e-6 only: not exact enough to write q(t_k) in as numbers
+    if g.get("cls") == "Free" or g.get("localize_T") or g.get("localize_t0"):
+        return None  # node times are decision variables there: samples at fixed times are not equivalent to q(ocp.t)
     n = norm_grid(sp.method.get("grid"), sp.method["N"])
     return [float(sp.t0[1]) + x * float(sp.T[1]) for x in n]
 
